@@ -75,7 +75,7 @@ def opaque_sort(name):
 
 
 def tuple_sort(t):
-    key = repr(t)
+    key = repr(t).replace('bytearray', 'bytes')     # same z3 sort for bytes and bytearray components
     if key not in _tuple_sorts:
         dt = z3.Datatype('Tup_' + re.sub(r'\W+', '_', key))
         dt.declare('mk', *[(f'f{i}', sort_of(a)) for i, a in enumerate(t.args)])
@@ -84,7 +84,7 @@ def tuple_sort(t):
 
 
 def opt_sort(t):
-    key = repr(t)
+    key = repr(t).replace('bytearray', 'bytes')
     if key not in _tuple_sorts:
         dt = z3.Datatype('Opt_' + re.sub(r'\W+', '_', key))
         dt.declare('none')
@@ -303,7 +303,15 @@ def bytes_const(b):
 
 
 def simp(z):
-    return z3.simplify(z)
+    """Constant folding only: z3.simplify rewrites seq.nth into ite(nth_i, nth_u) forms that hurt both the
+    solver and the cvc5 export, so a simplified term is used only when it is a literal."""
+    r = z3.simplify(z)
+    if z3.is_int_value(r) or z3.is_true(r) or z3.is_false(r) or z3.is_string_value(r):
+        return r
+    k = r.decl().kind() if z3.is_app(r) else None
+    if k in (z3.Z3_OP_SEQ_EMPTY, z3.Z3_OP_SEQ_UNIT) or (z3.is_const(r) and r.decl().kind() == z3.Z3_OP_UNINTERPRETED):
+        return r
+    return z
 
 
 def concrete_int(v):
